@@ -984,6 +984,21 @@ func (c *chessCtx) checkC09(o *Obs, fen string, pFen, pPath *position.Position) 
 			continue
 		}
 		c.res.count("C09.moves_compared", 1)
+		if pr.Gives && legal[pr.M] {
+			// coverage only: which piece kind moved, and was the check (also) given by a piece that did not move
+			c.res.count("C09.checking_moves", 1)
+			guard(func() {
+				from, to := mv.From(), mv.To()
+				pt := p.GetPiece(from).TypeOf()
+				us := p.NextPlayer()
+				p.DoMove(mv)
+				att := attacks.AttacksTo(p, p.KingSquare(us.Flip()), us)
+				p.UndoMove()
+				if att&^to.Bb() != 0 && pr.K != 3 { // castling: the rook checks
+					c.res.count("C09.revealed_checks_mover_"+pt.String(), 1)
+				}
+			})
+		}
 		if il != legal[pr.M] || wl != legal[pr.M] {
 			c.disc("C09", "legality-tests", fmt.Sprintf("legality/kind%d", pr.K), o, fen,
 				map[string]interface{}{"move": mvUci(pr.M), "IsLegalMove": il, "WasLegalMove": wl, "rules": legal[pr.M]})
